@@ -16,7 +16,7 @@ func VHarness_C05_parser_until() {
 	vHavocProtocol(&p, VBound("nlist", 1))
 	from, until := VNondetI64("from"), VNondetI64("until")
 	lim := int64(1) << 62
-	VAssume(VAnd(from > -lim, from < lim, until >= 0, until < lim, p.MaxOperationTimeDelta < uint64(lim)))
+	VAssume(VAnd(from > -lim, from < lim, until > -lim, until < lim, p.MaxOperationTimeDelta < uint64(lim)))
 	parser := &Parser{Protocol: p}
 	got := parser.getAnchorUntil(from, until)
 	if from != 0 && until == 0 {
@@ -81,7 +81,7 @@ func VHarness_C05_intake_window() {
 	VAssert("C05/intake-validator-called-once", len(vLog.timeValidator) == 1)
 	from, until := vLog.timeValidator[0][0], vLog.timeValidator[0][1]
 	lim := int64(1) << 62
-	VAssume(VAnd(sf > -lim, sf < lim, su >= 0, su < lim, p.MaxOperationTimeDelta < uint64(lim)))
+	VAssume(VAnd(sf > -lim, sf < lim, su > -lim, su < lim, p.MaxOperationTimeDelta < uint64(lim)))
 	VAssert("C05/intake-from", from == sf)
 	VAssert("C05/intake-until-eq-spec", until == vSpecUntil(sf, su, p.MaxOperationTimeDelta))
 }
